@@ -32,11 +32,12 @@ def strict_rule(chk, run, fn, construct, lower_tag, upper_tag=None):
             if (tag in e.left.tags) == (tag in e.right.tags):
                 return False
             b, m = (e.left, e.right) if tag in e.left.tags else (e.right, e.left)
-            return not m.has_const() and "len-of" not in b.tags and m.kind != K_NONE
+            # (the measure is a series: a comparison of two scalars -- two bounds with each other, two positions -- is not a crossing test)
+            return not m.has_const() and "len-of" not in b.tags and m.kind != K_NONE and not (m.kind in (K_SCALAR, K_BOOL) and m.shape == ())
         hits = [e for e in evs if _is_cmp(e)]
         if not hits:
             chk.ob("R-STRICT", "%s[%s]" % (construct, tag), "a comparison against %s exists" % tag, False,
-                   derived="no comparison has exactly one side derived from %s" % tag, loc=run.fi.loc())
+                   derived="no comparison has exactly one side derived from %s" % tag, loc=run.fi.loc(), inconclusive=True)
             continue
         for e in hits:
             tagged_left = tag in e.left.tags
@@ -236,10 +237,12 @@ def check_value(chk, c, v, se, measure_tags, atom, not_tags, forwarder=False):
         ks = s.ext[1:] if (s is not None and s.ext) else None
         ke = e.ext[1:] if (e is not None and e.ext) else None
         chk.ob("R-ENDS", c + ".start[first]", "first element of an ascending index array (times dt)",
-               s is not None and s.ext is not None and s.ext[0] == "lo", derived="ext=%r" % (s.ext[0] if s is not None and s.ext else None,))
+               s is not None and s.ext is not None and s.ext[0] == "lo", derived="ext=%r" % (s.ext[0] if s is not None and s.ext else None,),
+               inconclusive=(s is None or s.ext is None))          # not read off an index array at all (bisection, a scan ...): not located
         chk.ob("R-ENDS", c + ".end[last]", "last element of the same ascending index array (times dt)",
                e is not None and e.ext is not None and e.ext[0] == "hi" and ks == ke,
-               derived="ext=%r same-array=%s" % (e.ext[0] if e is not None and e.ext else None, ks == ke))
+               derived="ext=%r same-array=%s" % (e.ext[0] if e is not None and e.ext else None, ks == ke),
+               inconclusive=(e is None or e.ext is None))
         for nm, x in (("start", s), ("end", e)):
             expect(chk, "R-REL", c + "." + nm, x, deg={atom: 0, DT: 1}, parity={atom: "even"}, kind=K_SCALAR, atoms=(atom, DT))
             expect(chk, "R-MEASURE", c + "." + nm, x, tags_has=list(measure_tags), tags_not=list(not_tags))
